@@ -24,9 +24,10 @@ class NativeHarness:
   get: () -> callable (imports from /repo); call: optional (fn, concrete_args: dict) -> result
   variants: optional concrete_args -> iterable of concrete_args (e.g. list/tuple/set variants)
   """
-  def __init__(self, module, attr, call=None, variants=None, bound=None, setup=None, pre_filter=None):
+  def __init__(self, module, attr, call=None, variants=None, bound=None, setup=None, pre_filter=None, extra=()):
     self.module, self.attr, self.call, self.variants, self.bound, self.setup = module, attr, call, variants, bound, setup
     self.pre_filter = pre_filter
+    self.extra = list(extra)  # additional hand-picked abstract inputs (dicts param -> abstract value)
 
   def get(self):
     m = importlib.import_module(self.module)
@@ -76,6 +77,10 @@ def native_env(spec, bound):
   for k, v in spec.module_globals.items():
     if isinstance(v, (Sort, C.SpecFn)):
       env[k] = v
+  from .values import UFn
+  for k, v in spec.module_globals.items():
+    if isinstance(v, UFn) and v.native is not None:
+      env[k] = v.native
   for k, v in C.SPECFNS.items():
     env.setdefault(k, v)
 
@@ -97,7 +102,7 @@ def native_env(spec, bound):
              implies=lambda a, b: (not a) or bool(b), iff=lambda a, b: bool(a) == bool(b),
              is_=lambda x, c: isinstance(x, ADTVal) and x.ctor == c,
              ite=lambda c, a, b: a if c else b, seq_eq=lambda a, b: tuple(a) == tuple(b),
-             dom=lambda m: frozenset(m.keys()), subset=lambda a, b: frozenset(a) <= frozenset(b),
+             str=str, dom=lambda m: frozenset(m.keys()), subset=lambda a, b: frozenset(a) <= frozenset(b),
              empty_set=lambda s: frozenset(), Int=INT, Nat=NAT, Bool=BOOL, Real=REAL)
   return env
 
@@ -122,6 +127,8 @@ def check_one(spec, fn, env, abs_args, harness):
   """Run the real function on one abstract input; returns None or a Failure."""
   params = list(spec.params) + list(spec.free)
   try:
+    if harness.pre_filter is not None and not harness.pre_filter(abs_args):
+      return 'skip'
     if not all(eval_clause(r, env, abs_args) for r in spec.requires):
       return 'skip'
   except Exception:
@@ -183,7 +190,8 @@ def bounded_search(spec, bound=None, max_cases=20000, first_only=True):
     params = list(spec.params) + list(spec.free)
     spaces = [s.enumerate(bound) for _, s in params]
     n = 0
-    for combo in itertools.product(*spaces):
+    extra = [tuple(e[p] for p, _ in params) for e in h.extra]
+    for combo in itertools.chain(extra, itertools.product(*spaces)):
       if n >= max_cases:
         break
       abs_args = {p: v for (p, _), v in zip(params, combo)}
